@@ -95,7 +95,6 @@ impl CKBProtocolHandler for SyncProtocol {
                     let db_blocks: HashSet<_> =
                         db_blocks.into_iter().map(|(hash, _)| hash).collect();
 
-                    self.storage.remove_matched_blocks(start_number);
                     let blocks = self.peers.clear_matched_blocks(&mut matched_blocks);
                     assert_eq!(blocks.len(), db_blocks.len());
                     info!(
@@ -112,6 +111,10 @@ impl CKBProtocolHandler for SyncProtocol {
                     }
                     self.storage
                         .update_block_number(start_number + blocks_count - 1);
+                    // Remove the record only after all its blocks are filtered: if the process
+                    // is killed before that, the record is recovered after restarting and the
+                    // blocks are downloaded and filtered again (filtering a block is idempotent).
+                    self.storage.remove_matched_blocks(start_number);
 
                     // send more GetBlocksProof/GetBlocks requests
                     if let Some((_start_number, _blocks_count, db_blocks)) =
